@@ -30,7 +30,7 @@ import xgi
 from xgi.exception import IDNotFound, XGIError
 
 from .. import hg as MH
-from ..core import Infra, TRUSTED_COMMON, VERIF, build_and_audit, canon, dec_id, enc_id, finish, idkey, jhash, run_driver
+from ..core import Infra, TRUSTED_COMMON, VERIF, build_and_audit, canon, dec_id, enc_id, enc_val, finish, idkey, jhash, run_driver
 from ..fn import all_small_hypergraphs, conclude
 
 ROUTES = {
@@ -86,13 +86,21 @@ def _scalar(x):
     return x is None or isinstance(x, str) or (isinstance(x, int) and not isinstance(x, bool))
 
 
+def _has_set(v):
+    if isinstance(v, dict):
+        return any(_has_set(x) for x in v.values())
+    if isinstance(v, (list, tuple)):
+        return any(isinstance(x, (set, frozenset)) or _has_set(x) for x in v)
+    return False
+
+
 def enc_val7(v):
-    """canonical form of an attribute value (agrees with core.enc_val on values without nested sets)"""
-    if _scalar(v):
-        return v
-    if isinstance(v, (set, frozenset)) and all(_scalar(x) for x in v):
-        return sorted(v, key=idkey)
-    return {"$o": json.dumps(spec_of(v), sort_keys=True)}
+    """canonical form of an attribute value: core.enc_val, extended to containers that hold sets (sorted)"""
+    if isinstance(v, (set, frozenset)) and not all(_scalar(x) for x in v):
+        return {"$o": json.dumps(spec_of(v), sort_keys=True)}
+    if isinstance(v, (dict, list)) and _has_set(v):
+        return {"$o": json.dumps(spec_of(v), sort_keys=True)}
+    return enc_val(v)
 
 
 def enc_val7_req(v):
@@ -272,10 +280,12 @@ def walk(root, leaves=frozenset()):
 def attr_dicts(H):
     """ids of the attribute dicts (per node, per edge, network) — the boundary of the container-level walk"""
     out = set()
-    for n in H.nodes:
-        out.add(id(H.nodes[n]))
-    for e in H.edges:
-        out.add(id(H.edges[e]))
+    for view in (H.nodes, H.edges):
+        for i in view:
+            try:
+                out.add(id(view[i]))
+            except Exception:  # noqa  (a broken clone; already reported by (a))
+                pass
     na = getattr(H, "_net_attr", None)
     if na is not None:
         out.add(id(na))
@@ -688,13 +698,27 @@ class Skip(Exception):
 
 
 def evaluate(case, want_model=False, stats=None):
+    """`_evaluate`; when the clone is already known to be wrong (some clause failed) and a later phase trips over
+    the broken object, the failures found so far are the result"""
+    acc = {"fails": [], "reqs": [{"op": "reset"}], "exps": [None], "info": {}}
+    try:
+        return _evaluate(case, want_model, stats, acc)
+    except Skip:
+        raise
+    except Exception:  # noqa
+        if acc["fails"]:
+            return acc["fails"], acc["reqs"][:1], acc["exps"][:1], acc["info"]
+        raise
+
+
+def _evaluate(case, want_model, stats, acc):
     """run one case on the implementation.  Returns (fails, reqs, exps, info): fails = [(site, class, detail)],
     reqs/exps = the request lines for Drivers/C07.lean with the implementation's observation for each (None = not compared)"""
     case = pycopy.deepcopy(case)
     cls, route = case["class"], case["route"]
     site = site_of(cls, route)
     factory = CLASSES[cls][0]
-    fails, reqs, exps = [], [{"op": "reset"}], [None]
+    fails, reqs, exps = acc["fails"], acc["reqs"], acc["exps"]
     model = want_model and cls == "Hypergraph"
     H = factory()
     for op in case["build"]:
@@ -704,6 +728,7 @@ def evaluate(case, want_model=False, stats=None):
         if model:
             reqs.append(to_request(op, H, "a")); exps.append(snapshot(H, cls, out))
     src0 = snapshot(H, cls)
+    acc["info"]["src"] = src0
     if not consistent(src0, cls) or (cls == "SimplicialComplex" and not sc_closed(H)):
         raise Skip("source violates another property's invariant (incidence / closure)")
     stale = counter_stale(src0)
@@ -740,7 +765,8 @@ def evaluate(case, want_model=False, stats=None):
         fails.append((site, "shares-mutable-container", describe_shared(shared, cellsA)))
     if want_model:
         reqs.append(heap_request(H, C, cellsA, cellsB)); exps.append({"sep": not shared})
-    info = {"src": src0, "cells": len(cellsA) + len(cellsB), "stale": stale}
+    info = acc["info"]
+    info.update(cells=len(cellsA) + len(cellsB), stale=stale)
     if not full and stats is not None:                 # informational: what the statement does not ask for
         deep = set(walk(H)) & set(walk(C))
         stats[f"nested_sharing_beyond_statement:{route}"] += bool(deep)
@@ -914,11 +940,11 @@ def run(ctx):
     rng = ctx.rng
     cases = load_corpus()
     ctx.stats["corpus_cases"] = len(cases)
-    for _ in range(ctx.n(70, 4000)):
+    for _ in range(ctx.n(250, 5000)):
         cases += gen_cases(rng, "Hypergraph")
-    for _ in range(ctx.n(30, 1500)):
+    for _ in range(ctx.n(100, 2000)):
         cases += gen_cases(rng, "DiHypergraph")
-    for _ in range(ctx.n(30, 1500)):
+    for _ in range(ctx.n(100, 2000)):
         cases += gen_cases(rng, "SimplicialComplex")
     ndis = run_cases(ctx, cases, model_ok=True)
     if not ctx.quick:
